@@ -838,7 +838,7 @@ def run(chk):
     cases = []
     for dump, req in corpus_cases():
         cases.append(('fragment', dump, req, None))
-    n_rand = 400 if tier == 'quick' else 12000
+    n_rand = 400 if tier == 'quick' else 5000
     for _ in range(n_rand):
         a = gen_peptide(rng)
         req = gen_request(rng, tier, a.sequence)
@@ -852,13 +852,18 @@ def run(chk):
             comps = [rng.randint(-400, 4000) / 16 for _ in range(len(a.sequence))]    # an explicit _mass_components list
         cases.append((op, annot.dump(a), req, comps))
     # ion-type subsets (all of them in thorough) on short peptides
+    n_sub0 = len(cases)
     for ions in ion_subsets(rng, tier):
-        a = gen_peptide(rng, ambiguous_p=0.0, max_len=5 if tier == 'thorough' else 8)
+        a = gen_peptide(rng, ambiguous_p=0.0, max_len=4 if tier == 'thorough' else 8)
         req = gen_request(rng, tier, a.sequence)
         req['ion_types'] = ions
-        if tier == 'thorough':
-            req['max_losses'] = min(req['max_losses'], 2)
+        if tier == 'thorough':      # 65535 subsets: keep each call small
+            req['max_losses'] = 1
+            req['losses'] = None
+            req['charges'] = rng.choice([1, 2, [1, 3], [2]])
+            req['isotopes'] = rng.choice([0, [0, 1], 2])
         cases.append(('fragment', annot.dump(a), req, None))
+    n_sub1 = len(cases)
     by_rt = {}
     for c in cases:
         by_rt.setdefault(c[2]['return_type'] + '|' + str(c[2]['precision']), []).append(c)
@@ -893,10 +898,14 @@ def run(chk):
                             'call': 'peptacular.fragment(peptide, **request) / peptacular.Fragmenter(peptide, monoisotopic).fragment(...)',
                             'rerun': './check C04 --replay <this file>'})
 
-    ocases = [ocase(c[1], c[2]) for c in cases if c[3] is None]
     if tier == 'quick' and not chk.broken():
         nc = len(corpus_cases())
-        ocases = ocases[:nc] + ocases[nc::3]
+        sel = cases[:nc] + cases[nc::3]
+    elif tier == 'thorough' and not chk.broken():
+        sel = cases[:n_sub0:2] + cases[n_sub0:n_sub1:16] + cases[n_sub1:]
+    else:
+        sel = cases
+    ocases = [ocase(c[1], c[2]) for c in sel if c[3] is None]
     MASS_BUDGET[0] = 60 if (tier == 'quick' and not chk.broken()) else None
     # a small exhaustive family: every ion type x plain peptides of every length 1..12
     for n in range(1, 13):
